@@ -315,6 +315,9 @@ def c16(tier, seed):
         scenario("mr_x_cat_x_cat", [mr("T", 2), cat("A", 2), cat("B", 3, miss=[3])]),
         scenario("cat_x_mr_x_cat", [cat("T", 2), mr("A", 2), cat("B", 3, miss=[1])]),
         scenario("cat_x_cat_x_mr", [cat("T", 3, miss=[3]), cat("A", 2), mr("B", 2)]),
+        # table dimensions that are not plain categorical, a missing element before a valid one
+        scenario("catdate_x_cat_x_cat.tm", [cat("T", 3, miss=[2], date=True), cat("A", 2), cat("B", 2)]),
+        scenario("datetime_x_cat_x_cat.tm1", [cat("T", 3, miss=[1], subtype="datetime"), cat("A", 2), cat("B", 2)]),
     ]
     scns += C.unweighted(scns[:2])
     scns += C.fractional(scns[:3])
@@ -789,6 +792,10 @@ def c06(tier, seed):
         scenario("cacat_x_mr_x_casub", [cacat("A", 3, miss=[2]), mr("B", 2), caitems("A", 2)]),
         scenario("cacat_x_cat_x_casub", [cacat("A", 3, miss=[1]), cat("B", 2), caitems("A", 2)]),
         scenario("catdate_x_cat_x_cat", [cat("T", 2, date=True), cat("A", 2), cat("B", 2)]),
+        # table dimensions that are not plain categorical, with a missing element before a
+        # valid one (the raw offset of a table element differs from its valid position)
+        scenario("catdate_x_cat_x_cat.tm", [cat("T", 3, miss=[2], date=True), cat("A", 2), cat("B", 2)]),
+        scenario("text_x_cat_x_cat.tm1", [cat("T", 3, miss=[1], subtype="text"), cat("A", 2), cat("B", 2)]),
         scenario("cat_x_cat_x_cat_y", [cat("T", 3, miss=[2]), cat("A", 2), cat("B", 2)], **y),
         scenario("mr_x_cat_x_cat_y", [mr("T", 2), cat("A", 2), cat("B", 2)], **y),
         scenario("cat_x_cat_x_cat.u", [cat("T", 2), cat("A", 2), cat("B", 2)], weighted=False),
